@@ -123,7 +123,20 @@ func genIllCase(r *rand.Rand, id int) *Case {
 			case 1:
 				c.Stmts = append(c.Stmts, J{"k": "call", "name": "set_account_meta", "args": jl(eAcct("a"), eStr("k"), eNum(1), eNum(2))})
 			case 2:
-				c.Stmts = append(c.Stmts, J{"k": "call", "name": "frobnicate", "args": jl(eNum(1))})
+				if r.Intn(2) == 0 {
+					c.Stmts = append(c.Stmts, J{"k": "call", "name": "frobnicate", "args": jl(eNum(1))})
+				} else {
+					// a function that only exists as the origin of a variable, used as a statement (with fitting arguments)
+					switch r.Intn(3) {
+					case 0:
+						c.Stmts = append(c.Stmts, J{"k": "call", "name": "balance", "args": jl(eAcct("a"), eAsset("USD"))})
+					case 1:
+						c.Stmts = append(c.Stmts, J{"k": "call", "name": "meta", "args": jl(eAcct("m1"), eStr("k0"))})
+					default:
+						c.Stmts = append(c.Stmts, J{"k": "call", "name": "overdraft", "args": jl(eAcct("a"), eAsset("USD"))})
+						c.FlagOvd = r.Intn(2) == 0
+					}
+				}
 			default:
 				c.Stmts = append(c.Stmts, J{"k": "call", "name": "set_tx_meta", "args": jl()})
 			}
@@ -145,6 +158,16 @@ func genIllCase(r *rand.Rand, id int) *Case {
 			c.VarVals[name] = J{"t": "missing"}
 		case 5: // unknown type name
 			name := fmt.Sprintf("u%c", 'a'+m)
+			if r.Intn(3) == 0 {
+				// ... on a variable whose text comes from the metadata (the lookup itself succeeds)
+				if c.Meta["m9"] == nil {
+					c.Meta["m9"] = map[string]string{}
+				}
+				c.Meta["m9"]["kt"] = "x"
+				c.Decls = append(c.Decls, J{"type": pick(r, []string{"thing", "acount", "int"}), "name": name, "origin": J{"k": "call", "name": "meta", "args": jl(eAcct("m9"), eStr("kt"))}})
+				c.VarVals[name] = J{"t": "str", "v": "x"}
+				break
+			}
 			c.Decls = append(c.Decls, J{"type": "thing", "name": name, "origin": J{"k": "none"}})
 			if r.Intn(2) == 0 {
 				c.RawVars[name] = "x"
